@@ -334,7 +334,7 @@ def apply_time_range_vtodo(start, end, comp, tzify):
         else:
             return start <= tzify(completed.dt) and end >= tzify(completed.dt)
     elif created:
-        return end >= tzify(created.dt)
+        return end > tzify(created.dt)
     else:
         return True
 
